@@ -18,7 +18,7 @@ RULE = ('every validator set of <= 3 members with weights in 1..3 (quick: a seed
 ASSUMPTIONS = ['signature items are labelled by construction with PyNaCl (valid = signed by that validator over this block id; invalid = one '
                'flipped bit; other = signed over a different block id; foreign = key outside the set)',
                'a set in which a signer repeats but whose distinct signers already exceed 2/3 may be accepted or rejected (the property allows '
-               'either reading of "counted more than once")', 'weights are kept below 2^20 so that TLC integer arithmetic is exact']
+               'either reading of "counted more than once")', 'weights below 2^20 use TLC integers; 64-bit weights are limb vectors compared by TonNat (lemmas in MC_Nat)']
 MAGIC_ID = b'\xc6\xb4\x13\x48'
 MAGIC_SIGN = b'\x70\x6e\x0b\xc5'
 
@@ -28,6 +28,7 @@ def model_checks(tier):
     base = 'SPECIFICATION Spec\nCONSTANTS MaxV = %d\n MaxW = 3\n MaxLen = %d\n Dedupe = %s\n Strict = %s\n%sCHECK_DEADLOCK FALSE\n'
     inv = 'INVARIANT Refines\nINVARIANT Partition\n'
     return [dict(name='sig_m', module='MC_Sig.tla', workers=16, timeout=1500, heap='12g', cfg=base % (3, 3 if q else 4, 'TRUE', 'TRUE', inv)),
+            dict(name='nat_lemmas', module='MC_Nat.tla', workers=4, cfg='INIT Init\nNEXT Next\nCHECK_DEADLOCK FALSE\n'),
             dict(name='sig_neg_nodedupe', module='MC_Sig.tla', workers=4, cfg=base % (2, 3, 'FALSE', 'TRUE', inv), expect_violation='Refines'),
             dict(name='sig_neg_nonstrict', module='MC_Sig.tla', workers=4, cfg=base % (3, 3, 'TRUE', 'FALSE', inv), expect_violation='Refines')]
 
@@ -62,6 +63,10 @@ class World:
     def run(self, weights, items, layout=False):
         nodes = [ValidatorDescr('validator', SigPubKey(self.keys[j].verify_key.encode()), w) for j, w in enumerate(weights)]
         rec = {'op': 'sigs', 'weights': list(weights), 'items': [{'s': s, 'k': k} for s, k in items]}
+        if any(x >= 1 << 20 for x in weights):
+            # 64-bit weights: 4 limbs of 20 bits each, most significant first (TLC integers are 32-bit)
+            rec['bigw'] = [[(x >> (20 * (3 - j))) & 0xFFFFF for j in range(4)] for x in weights]
+            rec['weights'] = [0] * len(weights)
         try:
             check_block_signatures(nodes, [self.item(s, k) for s, k in items], self.blk)
             rec['out'] = {'ok': 1}
@@ -111,6 +116,23 @@ def generate(tier, seed, ctx):
             j = rng.randrange(len(items))
             items[j] = (items[j][0], rng.choice(['invalid', 'other']))
         out.append(w.run(weights, items, layout=rng.random() < 0.05))
+    # main-net scale weights (total around 2^60) within a few units of exactly two thirds: 3 * signed - 2 * total = target
+    for _ in range(40 if q else 800):
+        n = rng.randint(2, 8)
+        weights = [rng.randint(1 << 55, 1 << 58) for _ in range(n)]
+        signers = [j + 1 for j in range(n) if rng.random() < 0.7] or [1]
+        target = rng.choice([-200, -129, -3, -2, -1, 0, 1, 2, 3, 127, 129, 200, rng.randint(-5000, 5000)])
+        for _try in range(4):
+            t, sg = sum(weights), sum(weights[j - 1] for j in signers)
+            d = target - (3 * sg - 2 * t)
+            weights[signers[0] - 1] += d                         # a signer's weight moves the balance one for one
+            if weights[signers[0] - 1] > 0:
+                break
+            weights[signers[0] - 1] = rng.randint(1 << 59, 1 << 60)
+        if min(weights) <= 0 or 3 * sum(weights[j - 1] for j in signers) - 2 * sum(weights) != target:
+            continue
+        rng.shuffle(signers)
+        out.append(w.run(weights, [(s, 'valid') for s in signers], layout=False))
     for weights, signers in (([1, 1, 1], [1, 2]), ([2, 1], [1]), ([3, 3, 3], [1, 2]), ([1, 1, 1], [1, 2, 3]), ([2, 2, 2], [1, 2, 2]),
                              ([1, 2], [2, 2]), ([4, 1, 1], [1]), ([4, 1, 1], [1, 1]), ([], []), ([5], []), ([5], [1]), ([1, 1, 1], [1, 1, 1])):
         out.append(w.run(weights, [(s, 'valid') for s in signers], layout=True))
@@ -120,6 +142,9 @@ def generate(tier, seed, ctx):
 def canary(r, rng):
     r['out'] = {'ok': 1} if 'err' in r['out'] else {'err': 'Canary'}
     # only a canary if the spec has an opinion on this record
+    if 'bigw' in r:
+        r['canary'] = 'flipped outcome'
+        return r
     ws, it = r['weights'], r['items']
     good = all(i['s'] and i['k'] == 'valid' for i in it)
     distinct = len({i['s'] for i in it}) == len(it)
